@@ -46,7 +46,7 @@ def units(tier):
     specs = [s for s in gen.enum_grammars(2, 2, 3, 2, allow_cyclic=False)][:: (5 if tier == "quick" else 1)]
     specs += [s for s in gen.enum_grammars(3, 1, 4, 2, allow_cyclic=False)][:: (60 if tier == "quick" else 6)]
     fixed = random.Random(20260928)
-    for i in range(400 if tier == "quick" else 3000):
+    for i in range(400 if tier == "quick" else 12000):
         s = gen.random_grammar(fixed if i % 2 else rng, max_nt=5, allow_cyclic=False)
         if s and len(s.nonterminals()) >= (2 if i % 4 == 0 else 4):
             specs.append(s)
